@@ -58,12 +58,16 @@ def step_program(spec, sid):
     if st.get("amend_out") or st.get("amend_vol"):
         prog.append({"a": "amend", "out": list(st.get("amend_out", [])),
                      "vol": list(st.get("amend_vol", []))})
+    for k in range(st.get("gates_before", 0)):
+        prog.append({"a": "gate", "name": f"{sid}b{k}"})
     if st.get("hold_defines"):
         prog.append({"a": "hold"})
     for sub in st.get("defines", []):
         prog.append(step_action(spec, sub))
     if st.get("hold_defines"):
         prog.append({"a": "release"})
+    for k in range(st.get("gates_after", 0)):
+        prog.append({"a": "gate", "name": f"{sid}a{k}"})
     for path in list(st.get("out", [])) + list(st.get("amend_out", [])):
         prog.append({"a": "write", "path": path})
     for path in list(st.get("vol", [])) + list(st.get("amend_vol", [])):
